@@ -26,7 +26,7 @@ Definition C01_bash_meaning_statement
   forall e en ws p,
     C01_domain e = true -> C01_env_ok e en = true ->
     ambiguous_run en (start e) ws = false ->
-    piece_boundary e en ws = false -> last_word_escape e en ws = false ->
+    piece_boundary e en ws = false ->
     match complete e en ws p, script_run e en ws p with
     | None, None => True
     | Some (req, al), Some reply => incl req reply /\ incl reply al
